@@ -1,2 +1,192 @@
-import Momo.Model.HashTable
-/-! # C11 — property theorems (in progress) -/
+import Momo.Props.C01
+/-!
+# C11 — Hash tables survive failures during growth
+
+Property theorems only. Model: `Momo/Model/HashTable.lean` with its explicit fault arguments
+(`Faults`: refused bucket array, throwing item creation, migration stopped after any number of
+items); lemmas: `Momo/Proof/HashTable*.lean`; the operation/specification vocabulary (`Op`, `step`,
+`astep`, `Rel`, `run`) is that of `Props/C01.lean`.
+
+Statement (properties.jsonl): when a hash table has to grow but the memory manager refuses the new
+bucket array, a single-element insertion still succeeds using the existing table unless literally
+every slot on the probe path is taken; and when a failure (allocation, or a throwing hash function
+for keys whose hash must be recomputed) interrupts the migration of elements to a larger table, no
+element becomes unreachable. In every such intermediate state all elements remain findable, are
+visited exactly once by traversal, can be removed, and later operations complete the migration.
+-/
+namespace Momo.HT
+open Momo Momo.Probe
+
+/-- **refused growth falls back to the existing table.** If `Buckets::Create` of the larger bucket
+array fails (`refuseGrow`) and a table exists, `pvAdd` inserts into the existing newest bucket
+array: the outcome is success or "Hash table is full" (never `bad_alloc`), and it is "full" iff
+literally every bucket of that array is full. -/
+theorem C11_refused_growth_fallback (sp : Spec) (hf : Nat → Nat) (t : Table) (it : Item) (f : Faults)
+    (g : Gen) (rest : List Gen) (hg : t.gens = g :: rest) (hov : sp.overloadIfCannotGrow = true)
+    (hrg : f.refuseGrow = true) (hra : f.refuseAdd = false) :
+    ((add sp hf t it f).2 = .ok ∨ (add sp hf t it f).2 = .full) ∧
+    ((add sp hf t it f).2 = .full ↔ ∀ b, b < 2 ^ g.L → isFull sp (bkt sp g.bs b) = true) :=
+  add_refused_fallback sp hf t it f g rest hg hov hrg hra
+
+/-- **`pvAddNogrow` fails iff every bucket is full**: the probe path of any home bucket visits all
+`2^L` buckets (C13), so "every slot on the probe path is taken" = "every bucket is full" — for
+linear and triangular probing, any table size, any hash code. -/
+theorem C11_full_iff_all_buckets_full (sp : Spec) (g : Gen) (h : Nat) (it : Item) :
+    addNogrowGen sp g h it = none ↔ ∀ b, b < 2 ^ g.L → isFull sp (bkt sp g.bs b) = true :=
+  addNogrowGen_none_iff sp g h it
+
+/-- **strong guarantee under every fault.** Whatever fault accompanies an insertion — refused bucket
+array, throwing item creation, full table — a failed insertion leaves the table exactly as it was;
+a successful one (even if its migration was cut short at an arbitrary point) adds exactly the item
+and keeps the invariant. PARTIAL: `hF` excludes an interrupted migration for item categories whose
+relocation cannot throw (`unrestricted_faults_counterexample` in `Props/C01.lean`). -/
+theorem C11_add_every_fault_partial (sp : Spec) (hf : Nat → Nat) (ok : SpecOK sp) (t : Table) (it : Item)
+    (f : Faults) (hI : TableInv sp hf t) (hF : FaultsOK sp f) (hk : ∀ x ∈ traverse t, x.key ≠ it.key) :
+    ((add sp hf t it f).2 ≠ .ok → (add sp hf t it f).1 = t) ∧
+    ((add sp hf t it f).2 = .ok →
+      TableInv sp hf (add sp hf t it f).1 ∧ (traverse (add sp hf t it f).1).Perm (it :: traverse t)) :=
+  ⟨add_fail_unchanged sp hf t it f, add_ok sp hf ok t it f hI hF hk⟩
+
+/-- **an interrupted migration loses nothing.** Wherever `pvRelocateItems` stops — after any number
+`stop` of moved items (allocation failure inside `AddCrt`, throwing hash functor), or because the
+head table is full — and however many generations coexist, the table invariant holds afterwards
+and the traversal is a rearrangement of the traversal before. By `C01_find_iff`,
+`C01_find_value`, `C01_count_traverse` (which only need the invariant) every element is then still
+found with its value and visited exactly once. -/
+theorem C11_migration_interrupted (sp : Spec) (hf : Nat → Nat) (ok : SpecOK sp) (t : Table)
+    (hI : TableInv sp hf t) (stop : Option Nat) :
+    TableInv sp hf (relocate sp hf t stop) ∧ (traverse (relocate sp hf t stop)).Perm (traverse t) :=
+  relocate_inv sp hf ok t hI stop
+
+/-- the same for the state in the middle of `pvAdd`/`Reserve`, where a fresh generation has just
+been put in front of the old ones (invariant without the "single generation" clause) -/
+theorem C11_migration_interrupted_core (sp : Spec) (hf : Nat → Nat) (ok : SpecOK sp) (t : Table)
+    (hI : TableCore sp hf t) (stop : Option Nat) :
+    TableCore sp hf (relocate sp hf t stop) ∧ (traverse (relocate sp hf t stop)).Perm (traverse t) :=
+  ⟨(relocate_core sp hf ok t hI stop).1, (relocate_core sp hf ok t hI stop).2.1⟩
+
+/-- **elements of an interrupted table can be removed**, from whichever generation holds them:
+removal at the position `pvFind` returned keeps the invariant and takes away exactly that item. -/
+theorem C11_remove_in_any_generation (sp : Spec) (hf : Nat → Nat) (t : Table) (hI : TableInv sp hf t)
+    (k gi b j : Nat) (hfnd : findTable sp hf t k = some (gi, b, j)) :
+    ∃ it, it.key = k ∧ it ∈ traverse t ∧ TableInv sp hf (removePos sp t gi b j) ∧
+      (it :: traverse (removePos sp t gi b j)).Perm (traverse t) := by
+  obtain ⟨g, hg, hj, hkey, hmem⟩ := found_item sp hf t k gi b j hfnd
+  obtain ⟨i1, i2⟩ := removePos_spec sp hf t hI gi b j g _ hg hj
+  exact ⟨_, hkey, hmem, i1, i2⟩
+
+/-- **the migration completes when it is not interrupted**, as long as the newest bucket array has a
+slot for every element: exactly one generation remains. -/
+theorem C11_migration_completes (sp : Spec) (hf : Nat → Nat) (ok : SpecOK sp) (t : Table)
+    (hI : TableCore sp hf t) (head : Gen) (olds : List Gen) (hg : t.gens = head :: olds)
+    (hroom : sp.unlimited = true ∨ (traverse t).length ≤ 2 ^ head.L * sp.maxCount) :
+    (relocate sp hf t none).gens.length = 1 :=
+  relocate_complete sp hf ok t hI head olds hg hroom
+
+/-- **later operations complete the migration**: an insertion (into a table with any number of
+leftover generations) whose own migration is not interrupted leaves exactly one generation,
+provided the table is not overloaded afterwards (`count ≤ capacity`; overload only arises from
+refused growth). -/
+theorem C11_later_insert_completes (sp : Spec) (hf : Nat → Nat) (ok : SpecOK sp) (t : Table) (it : Item)
+    (f : Faults) (hI : TableInv sp hf t) (hk : ∀ x ∈ traverse t, x.key ≠ it.key)
+    (hstop : f.relocStop = none) (hok : (add sp hf t it f).2 = .ok)
+    (hcap : (add sp hf t it f).1.count ≤ (add sp hf t it f).1.cap) :
+    (add sp hf t it f).1.gens.length = 1 :=
+  add_completes sp hf ok t it f hI hk hstop hok hcap
+
+/-- `Reserve` under every fault: a refused bucket array leaves the table unchanged, an interrupted
+migration keeps invariant and contents. PARTIAL: side condition `hF` as above. -/
+theorem C11_reserve_every_fault_partial (sp : Spec) (hf : Nat → Nat) (ok : SpecOK sp) (t : Table) (c : Nat)
+    (f : Faults) (hI : TableInv sp hf t) (hF : FaultsOK sp f) :
+    TableInv sp hf (reserve sp hf t c f).1 ∧ (traverse (reserve sp hf t c f).1).Perm (traverse t) ∧
+    ((reserve sp hf t c f).2 ≠ .ok → (reserve sp hf t c f).1 = t) :=
+  reserve_spec sp hf ok t c f hI hF
+
+/-- **what C11 asserts about the state a history reaches**, however many generations coexist in it:
+* the results reported so far are the specification's, and both tables satisfy the invariant
+  (`Rel`);
+* every element of the abstract map is found, with its value, and nothing else is found;
+* the abstract contents have no duplicate key and the traversal is a rearrangement of them
+  (part of `Rel`): each element is visited exactly once;
+* every present key can be removed: `rem k` reports 1 and leads to a state related to the
+  abstract map without `k`. -/
+def C11HistoryOK (sp : Spec) (hf : Nat → Nat) (ops : List Op) : Prop :=
+  (arun {} ops ((run sp hf {} ops).2.map Res.outcome)).2 = (run sp hf {} ops).2 ∧
+  Rel sp hf (run sp hf {} ops).1 (arun {} ops ((run sp hf {} ops).2.map Res.outcome)).1 ∧
+  (∀ k, findVal sp hf (run sp hf {} ops).1.a k
+      = lookup (arun {} ops ((run sp hf {} ops).2.map Res.outcome)).1.A k) ∧
+  (akeys (arun {} ops ((run sp hf {} ops).2.map Res.outcome)).1.A).Nodup ∧
+  (∀ k, k ∈ akeys (arun {} ops ((run sp hf {} ops).2.map Res.outcome)).1.A →
+    (step sp hf (run sp hf {} ops).1 (.rem k)).2 = .num 1 ∧
+    Rel sp hf (step sp hf (run sp hf {} ops).1 (.rem k)).1
+      { (arun {} ops ((run sp hf {} ops).2.map Res.outcome)).1 with
+        A := (arun {} ops ((run sp hf {} ops).2.map Res.outcome)).1.A.filter (fun x => x.key != k) })
+
+/-- the statement for every `Faults` value without side condition — false for the model, see
+`C11_history_full_false` -/
+def C11_history_full : Prop :=
+  ∀ (sp : Spec) (hf : Nat → Nat), SpecOK sp → ∀ ops : List Op, C11HistoryOK sp hf ops
+
+/-- **C11, the history theorem.** Take ANY history in which every insertion and reservation carries
+an ARBITRARY `Faults` value — growth refused or not, item creation throwing or not, migration
+stopped after ANY number of items (`relocStop`), repeatedly, so that any number of generations
+may coexist. The state reached satisfies `C11HistoryOK`. PARTIAL: `RunOK`/`OpOK` exclude an
+interrupted migration for item categories whose relocation cannot throw, and a copy of more than
+`capacity(2^(logStart+63))` elements. -/
+theorem C11_history_partial (sp : Spec) (hf : Nat → Nat) (ok : SpecOK sp) (ops : List Op)
+    (hok : RunOK sp hf {} ops) : C11HistoryOK sp hf ops := by
+  have h0 : Rel sp hf {} {} :=
+    ⟨emptyTable_inv sp hf, emptyTable_inv sp hf, List.Perm.refl _, List.Perm.refl _, rfl⟩
+  obtain ⟨hR, hres⟩ := run_refines_partial sp hf ok ops {} {} h0 hok
+  have nA := nodup_keys_perm hR.pa.symm hR.ia.core.nodup
+  refine ⟨hres, hR, fun k => ?_, nA, fun k hk => ?_⟩
+  · rw [findVal_eq sp hf _ hR.ia k, lookup_perm _ _ k nA hR.pa]
+  · obtain ⟨h1, h2⟩ := step_refines_partial sp hf ok _ _ hR (.rem k) trivial
+    simp only [astep, hk, if_true] at h1 h2
+    exact ⟨h2.symm, h1⟩
+
+theorem C11_history_full_false : ¬ C11_history_full := by
+  intro h
+  have h1 := (h exNR id exNR_ok exNROps).2.2.1 1
+  have h2 := unrestricted_faults_counterexample
+  rw [h2.2.2.2.1, h2.2.2.2.2] at h1
+  cases h1
+
+/-! ## Non-vacuity -/
+
+/-- the two-generation LimP4 state of `Props/C01.lean` (migration of the fifth insertion stopped
+after one item): all five elements found; one is removed from the OLD generation; a later
+fault-free insertion completes the migration -/
+def exAfter : List Op := exTwoGens ++ [.rem 2, .ins false 6 60 {}]
+
+example : (run exLimP4 id {} exTwoGens).1.a.gens.map (fun g => (g.L, genCount g)) = [(3, 2), (1, 3)] := by
+  decide
+example : (run exLimP4 id {} (exTwoGens ++ [.rem 2])).1.a.gens.map (fun g => (g.L, genCount g))
+    = [(3, 2), (1, 2)] := by decide
+example : (run exLimP4 id {} exAfter).1.a.gens.map (fun g => (g.L, genCount g)) = [(3, 5)] := by decide
+example : RunOK exLimP4 id {} exAfter := by decide
+example : [1, 2, 3, 4, 5, 6].map (findVal exLimP4 id (run exLimP4 id {} exAfter).1.a)
+    = [some 10, none, some 30, some 40, some 50, some 60] := by decide
+
+/-- refused growth on a full Open2N2 table (constant hash): the hypotheses of
+`C11_refused_growth_fallback` hold and the outcome is `full`; after one removal the same insertion
+succeeds in the existing table -/
+example : (run exOpen (fun _ => 0) {} (exFull.take 2)).1.a.gens.map (·.L) = [1] := by decide
+example : exOpen.overloadIfCannotGrow = true := by decide
+example : (run exOpen (fun _ => 0) {} exFull).2.map Res.outcome = [.ok, .ok, .full, .ok, .ok, .ok] := by
+  decide
+
+/-- repeated interruptions: three generations alive at once -/
+def exThreeGens : List Op :=
+  [.ins false 1 10 {}, .ins false 2 20 {}, .ins false 3 30 {}, .ins false 4 40 {},
+   .ins false 5 50 { relocStop := some 0 }, .ins false 6 60 { relocStop := some 0 },
+   .reserve 100 { relocStop := some 1 }]
+
+example : (run exLimP4 id {} exThreeGens).1.a.gens.map (fun g => (g.L, genCount g))
+    = [(6, 1), (3, 2), (1, 3)] := by decide
+example : TableInv exLimP4 id (run exLimP4 id {} exThreeGens).1.a :=
+  (C11_history_partial exLimP4 id exLimP4_ok exThreeGens (by decide)).2.1.ia
+example : [1, 2, 3, 4, 5, 6, 7].map (findVal exLimP4 id (run exLimP4 id {} exThreeGens).1.a)
+    = [some 10, some 20, some 30, some 40, some 50, some 60, none] := by decide
+
+end Momo.HT
